@@ -36,7 +36,7 @@ RBOUND = {'T': 1e-5, 'G1': 1e-5, 'G2': 1e-2}     # observed <= 4e-6 (T, G1) and 
 
 
 def BOUNDS(tier):
-    return {'crystals': QUICK if tier == 'quick' else THOROUGH, 'bases': ['T', 'G1', 'G2'], 'k': 0 if tier == 'quick' else 1,
+    return {'crystals': QUICK if tier == 'quick' else THOROUGH, 'bases': ['T', 'G1', 'G2'], 'k': '0 (+ one doubled site prefactor per Wyckoff set at G1 on multi-set crystals)' if tier == 'quick' else 1,
             'residual bound (Nmax=4)': RBOUND, 'refinement': 'r(Nmax=6) <= 0.6 r(Nmax=4) + 1e-9' + ('' if tier == 'quick' else '; r(8) <= 0.6 r(6) + 1e-9'),
             'endpoint range': 1 if tier == 'quick' else 2, 'scales': [2., 1e-3],
             'far field': '3D connected networks, bases T and G1 only; |ratio-1| <= 5% at a quarter of the mesh period'}
@@ -49,7 +49,10 @@ def cases(tier):
         ent = {'sitelist': sl, 'jumpnetwork': jn, 'crys': crys, 'chem': chem}
         nco = len(inter.coordinates(ent))
         for base in ('T', 'G1', 'G2'):
-            devsets = [()] + ([((c, l),) for c in range(nco) for l in (0, 2)] if (tier == 'thorough' and base == 'G1') else [])
+            devsets = [()] + ([((c, l),) for c in range(nco) for l in (0, 2, 3)] if (tier == 'thorough' and base == 'G1') else [])
+            if tier == 'quick' and base == 'G1' and len(sl) >= 2:
+                # several Wyckoff sets: one node per set with its site PREFACTOR doubled (the bases have unit prefactors)
+                devsets += [((c, 3),) for c, (kind, n) in enumerate(inter.coordinates(ent)) if kind == 'site']
             for devs in devsets:
                 out.append({'key': '{}/{}/{}/{}'.format(name, icut, base, '+'.join('{}.{}'.format(c, l) for c, l in devs) or 'base'),
                             'crystal': name, 'icut': icut, 'base': base, 'devs': [list(x) for x in devs], 'tier': tier,
